@@ -1,6 +1,8 @@
 (* Model of lentil/field.py (after the fix: commits listed in known_findings.json).
    Field data is either 0-d ([D0 v], numpy shape ()) or 2-d ([D2 a]).  The empty field
-   produced by a product without overlap (numpy shape (0,)) is [None] of [option field]. *)
+   produced by a product without overlap (numpy shape (0,)) is [None] of [option field].
+   Only 0-d data is a scalar that broadcasts in a product (Field.__mul__ / _mul_broadcast test
+   ndim == 0 since the fix for C07-one-element-array-field); a 1x1 array is an ordinary sized field. *)
 From LV Require Export Lib.Arr Model.Extent.
 
 (* tilt elements carried as metadata; their optics is Model/Tilt.v *)
@@ -28,12 +30,14 @@ Definition same_shape (a b : fdata) : bool :=
 Definition fextent (f : field) : extent :=
   let '(sr, sc) := dshape (fd f) in array_extent sr sc (offr f) (offc f).
 
+(* numpy ndim == 0: only 0-d data is a scalar that broadcasts (fix: a 1x1 array is an ordinary sized field) *)
+Definition is0d (d : fdata) : bool := match d with D0 _ => true | D2 _ => false end.
+
 (* ---- Field.__mul__ ---- *)
+(* _mul_scalar: both operands 0-d *)
 Definition mul_scalar (a b : field) : option field :=
   if (offr a =? offr b) && (offc a =? offc b) then
-    let v := (dget (fd a) 0 0 * dget (fd b) 0 0)%K in
-    let d := match fd a, fd b with D0 _, D0 _ => D0 v | _, _ => D2 (mkArr 1 1 (fun _ _ => v)) end in
-    Some (mkField d (offr a) (offc a) (ftilt a ++ ftilt b))
+    Some (mkField (D0 (dget (fd a) 0 0 * dget (fd b) 0 0)%K) (offr a) (offc a) (ftilt a ++ ftilt b))
   else None.
 
 (* the part of _mul_array after broadcasting: two 2-d arrays with offsets *)
@@ -49,23 +53,23 @@ Definition mul_core (da : arr S) (ora oca : Z) (db : arr S) (orb ocb : Z) (tl : 
     Some (mkField (D2 (force data)) sr sc tl)
   else None.
 
-(* _mul_array with _mul_broadcast: an operand of size 1 whose shape differs from the other's is
+(* _mul_array with _mul_broadcast: a 0-d operand whose shape differs from the other's is
    broadcast to the other's shape and inherits its offset *)
 Definition mul_array (a b : field) : option field :=
   let da := fd a in let db := fd b in
   let diff := negb (same_shape da db) in
   let '(a1, ora, oca) :=
-    if diff && (dsize da =? 1)
+    if diff && is0d da
     then (aconst (fst (dshape db)) (snd (dshape db)) (dget da 0 0), offr b, offc b)
     else (toarr da, offr a, offc a) in
   let '(b1, orb, ocb) :=
-    if diff && (dsize db =? 1)
+    if diff && is0d db
     then (aconst (nr a1) (nc a1) (dget db 0 0), ora, oca)
     else (toarr db, offr b, offc b) in
   mul_core a1 ora oca b1 orb ocb (ftilt a ++ ftilt b).
 
 Definition fmul (a b : field) : option field :=
-  if (dsize (fd a) =? 1) && (dsize (fd b) =? 1) then mul_scalar a b else mul_array a b.
+  if is0d (fd a) && is0d (fd b) then mul_scalar a b else mul_array a b.
 
 (* ---- boundary ---- *)
 Definition maxsize : Z := 9223372036854775807.
@@ -155,9 +159,9 @@ Definition insert (g : S -> S) (f : field) (out : arr S) (w : S) : result (arr S
 Definition embed (f : field) (r c : Z) : S :=
   let '(rmin, rmax, cmin, cmax) := fextent f in
   if inb rmin rmax r && inb cmin cmax c then dget (fd f) (r - rmin) (c - cmin) else k0.
-(* a one-element field read as an infinite constant *)
+(* a 0-d field read as an infinite constant *)
 Definition embed_const (f : field) (r c : Z) : S :=
-  if dsize (fd f) =? 1 then dget (fd f) 0 0 else embed f r c.
+  if is0d (fd f) then dget (fd f) 0 0 else embed f r c.
 Definition embed_opt (o : option field) (r c : Z) : S :=
   match o with Some f => embed f r c | None => k0 end.
 Definition embed_sum (fs : list field) (r c : Z) : S :=
@@ -173,7 +177,7 @@ Definition accumulate (fs : list field) (out : arr S) (w : S) : result (arr S) :
 Definition intensity (fs : list field) (n m : Z) : result (arr S) := accumulate fs (azeros n m) k1.
 End Field.
 Arguments D0 {S}. Arguments D2 {S}. Arguments mkField {S}. Arguments fd {S}. Arguments offr {S}.
-Arguments offc {S}. Arguments ftilt {S}. Arguments dshape {S}. Arguments dsize {S}. Arguments dget {S}.
+Arguments offc {S}. Arguments ftilt {S}. Arguments dshape {S}. Arguments dsize {S}. Arguments dget {S}. Arguments is0d {S}.
 Arguments fextent {S}. Arguments fmul {S}. Arguments mul_scalar {S}. Arguments mul_array {S}.
 Arguments boundary {S}. Arguments bstep {S}. Arguments merge {S}. Arguments reduce {S}. Arguments reduce_groups {S}.
 Arguments insert {S}. Arguments embed {S}. Arguments embed_const {S}. Arguments embed_opt {S}.
